@@ -159,7 +159,6 @@ func reMandatoryGroup(re *syntax.Regexp, g int) (int, bool) {
 	return 0, false
 }
 
-
 // submatchLen: v is the result of FindStringSubmatch / FindSubmatch of a global constant pattern; returns the
 // number of elements of a non-nil result (1 + number of groups).
 func (w *World) submatchLen(v ssa.Value) (int, bool) {
